@@ -23,6 +23,10 @@ BREAKS = ["schema-validator", "field-validator", "required-reset", "none", "seco
 LISTOPS = ["append", "insert", "setitem", "extend", "iadd", "slice", "slice-insert", "add-assign", "mul", "ctor-copy",
            "append-twice", "insert-after-reject", "setitem-after-reject", "move-broken-item"]
 ITEMS = ["good-map", "bad-map", "required-missing-map", "good-obj", "bad-obj", "scalar"]
+# required=True on every field class, offered its EMPTY value ("not unset, and not empty for strings, lists and dicts")
+REQ_FIELDS = ["str", "str-min0", "str-strip", "list", "list-typed", "list-cfg", "dict", "dict-typed", "bytes", "hostname", "url", "filename",
+              "int", "secure", "any"]
+REQ_ROUTES = ["assign", "ctor", "load_tree", "loads-json", "default"]
 HOLDERS = ["root", "sub"]
 
 
@@ -37,6 +41,10 @@ def generate(rng, tier):
             for holder in HOLDERS:
                 for action in ACTIONS[:6]:
                     cases.append({"fam": "deflist", "origin": origin, "break": brk, "holder": holder, "action": action, "src": "matrix"})
+    for fk in REQ_FIELDS:
+        for route in REQ_ROUTES:
+            for place in ("root", "sub"):
+                cases.append({"fam": "reqempty", "field": fk, "route": route, "place": place, "src": "matrix"})
     for op in LISTOPS:
         for item in ITEMS:
             for holder in HOLDERS:
@@ -280,9 +288,82 @@ def _listops(c, out):
     return out
 
 
+def _reqempty(c, out):
+    import cincoconfig as cc
+    from cincoconfig import ValidationError
+    item = cc.Schema()
+    item.n = cc.IntField(default=1)
+    mk = {"str": (lambda **k: cc.StringField(required=True, **k), ""),
+          "str-min0": (lambda **k: cc.StringField(required=True, min_len=0, **k), ""),
+          "str-strip": (lambda **k: cc.StringField(required=True, transform_strip=True, **k), "   "),
+          "list": (lambda **k: cc.ListField(required=True, **k), []),
+          "list-typed": (lambda **k: cc.ListField(cc.IntField(), required=True, **k), []),
+          "list-cfg": (lambda **k: cc.ListField(item, required=True, **k), []),
+          "dict": (lambda **k: cc.DictField(required=True, **k), {}),
+          "dict-typed": (lambda **k: cc.DictField(cc.StringField(), cc.IntField(), required=True, **k), {}),
+          "bytes": (lambda **k: cc.BytesField(required=True, **k), b""),
+          "hostname": (lambda **k: cc.HostnameField(required=True, **k), ""),
+          "url": (lambda **k: cc.UrlField(required=True, **k), ""),
+          "filename": (lambda **k: cc.FilenameField(required=True, **k), ""),
+          "int": (lambda **k: cc.IntField(required=True, **k), None),
+          "secure": (lambda **k: cc.SecureField(required=True, method="xor", **k), ""),
+          "any": (lambda **k: cc.AnyField(required=True, **k), None)}[c["field"]]
+    ctor, empty = mk
+    route = c["route"]
+    s = cc.Schema()
+    s.title = cc.StringField(default="t")
+    hs = s if c["place"] == "root" else s.sub
+    if c["place"] != "root":
+        s.sub.x = cc.IntField(default=2)
+    try:
+        hs.f = ctor(default=empty) if route == "default" else ctor()
+    except Exception as e:  # noqa
+        out["result"] = "declaration-refused:" + type(e).__name__
+        return out
+    wrap = (lambda d: d) if c["place"] == "root" else (lambda d: {"sub": d})
+    basic = empty if not isinstance(empty, bytes) else ""
+    try:
+        if route == "ctor":
+            cfg = s(**wrap({"f": empty}))
+        else:
+            cfg = s()
+        h = cfg if c["place"] == "root" else cfg.sub
+        if route == "assign":
+            h.f = empty
+        elif route == "load_tree":
+            cfg.load_tree(wrap({"f": basic}))
+        elif route == "loads-json":
+            cfg.loads(json.dumps(wrap({"f": basic})).encode(), format="json")
+        out["result"] = "accepted"
+    except ValidationError:
+        out["result"] = "rejected"
+        return out
+    except ValueError:
+        out["result"] = "rejected"
+        return out
+    except Exception as e:  # noqa
+        out["result"] = "raised:" + type(e).__name__
+        return out
+    h = cfg if c["place"] == "root" else cfg.sub
+    out["held"] = repr(h._data.get("f"))
+    out["held_empty"] = h._data.get("f") in (None, "", [], {}, b"") or (hasattr(h._data.get("f"), "__len__") and len(h._data.get("f")) == 0)
+    act = {}
+    _act(cfg, "validate", act, {})
+    out["validate"] = act["result"]
+    act2 = {}
+    _act(cfg, "collect", act2, {})
+    out["collect"] = act2["result"]
+    act3 = {}
+    _act(cfg, "load_tree-empty", act3, {})
+    out["load_empty"] = act3["result"]
+    return out
+
+
 def impl(c):
     out = {}
     try:
+        if c["fam"] == "reqempty":
+            return _reqempty(c, out)
         if c["fam"] == "listops":
             return _listops(c, out)
         return _late(c, out) if c["fam"] == "late" else _deflist(c, out)
@@ -292,6 +373,19 @@ def impl(c):
 
 
 def oracle(c, obs):
+    if c["fam"] == "reqempty":
+        what = "required %s field at %s given its empty value by %s" % (c["field"], c["place"], c["route"])
+        if "setup" in obs:
+            return ["%s: setup failed: %s" % (what, obs["setup"])]
+        bad = []
+        if obs["result"].startswith("raised:"):
+            bad.append("%s: failed with %s instead of a validation error" % (what, obs["result"][7:]))
+        if obs["result"] == "accepted" and obs.get("held_empty") and c["field"] != "bytes":       # the rule names strings, lists and dicts: b"" is a value
+            # the empty value got in (a default is taken as declared): every later validation / load must then fail
+            for k in ("validate", "collect", "load_empty"):
+                if obs.get(k) == "ok":
+                    bad.append("%s: the configuration holds %s and %s returned normally" % (what, obs.get("held"), k))
+        return bad
     if c["fam"] == "listops":
         what = "%s of a %s on a list of configurations held by %s" % (c["op"], c["item"], c["holder"])
         if "setup" in obs:
@@ -337,6 +431,8 @@ def oracle(c, obs):
 
 
 def tags(c, obs):
+    if c["fam"] == "reqempty":
+        return {"fam:reqempty", "field:" + c["field"], "route:" + c["route"], "result:" + str(obs.get("result")), "validate:" + str(obs.get("validate"))}
     if c["fam"] == "listops":
         return {"fam:listops", "op:" + c["op"], "item:" + c["item"], "result:" + str(obs.get("result"))}
     t = {"fam:" + c["fam"], "action:" + c["action"], "result:" + str(obs.get("result"))}
